@@ -569,7 +569,9 @@ def gen_scenario(rng, malformed=False, conflicts=True):
     sub_a = sc.cwd + ("a",)
     sub_ab = sc.cwd + ("a", "b")
     sub_c = sc.cwd + ("c",)
-    cands = [sc.cwd, sub_a, sub_ab, sub_c]
+    sub_ca = sc.cwd + ("c", "a")        # same base names as other directories: a cache keyed on anything but the full path shows
+    sub_aa = sc.cwd + ("a", "a")
+    cands = [sc.cwd, sub_a, sub_ab, sub_c, sub_ca, sub_aa]
     if layout == "file_outside_cwd":
         cands += [("home", "proj", "lib"), ("home", "proj")]
     if rng.random() < 0.15:
@@ -590,7 +592,7 @@ def gen_scenario(rng, malformed=False, conflicts=True):
         sc.sql.append((d + (name,), text))
         used.add(d)
     # config files along the chains
-    dirs_for_cfg = [sc.home, sc.cwd, sub_a, sub_ab, sub_c] + [tuple(sc.cwd[:i]) for i in range(1, len(sc.cwd))] + [()]
+    dirs_for_cfg = [sc.home, sc.cwd, sub_a, sub_ab, sub_c, sub_ca, sub_aa] + [tuple(sc.cwd[:i]) for i in range(1, len(sc.cwd))] + [()]
     if layout == "file_outside_cwd":
         dirs_for_cfg += [("home", "proj", "lib"), ("home", "proj")]
     if ("elsewhere", "q") in sc.dirs:
@@ -1389,12 +1391,26 @@ def _run(ctx, coq_ok, base_tmp):
         # ---- the implementation on every scenario
         t_impl0 = coq.now()
         n_hist = 0
-        max_hist = 8 if quick else 100
+        max_hist = 8 if quick else 60
         for si, (sc, info) in enumerate(zip(scs, infos)):
             root = info["root"]
             with Redirect(os.path.join(root, *sc.home), None if sc.xdg is None else os.path.join(root, *sc.xdg), os.path.join(root, *sc.cwd)):
                 clear_caches()
                 info["direct"] = impl_direct(sc, root, rng)
+                # isolation by refinement, no model involved: every file again, alone, with cold caches
+                for i, (p, _t) in enumerate(sc.sql):
+                    one = copy.copy(sc)
+                    one.sql = [sc.sql[i]]
+                    clear_caches()
+                    alone = impl_direct(one, root, rng)[0]
+                    seq = info["direct"][i]
+                    ctx.case(None, bucket="alone-vs-sequence-config")
+                    if alone[0] != seq[0] or (alone[0] == "err" and alone[1] != seq[1]) or (alone[0] == "ok" and not tree_eq(alone[1], seq[1], True)):
+                        ctx.violation("config-depends-on-sequence", "a file's effective config differs between loading it alone (cold caches) and after other files of the run",
+                                      {"input": sc.describe(), "file": "/".join(p), "position_in_sequence": i,
+                                       "difference": first_diff(alone[1], seq[1]) if alone[0] == seq[0] == "ok" else {"alone": alone[:2] if alone[0] == "err" else "ok", "in_sequence": seq[:2] if seq[0] == "err" else "ok"}},
+                                      attrs={"kind": "value" if alone[0] == seq[0] == "ok" else "error"})
+                clear_caches()
                 info["iters"] = []
                 for p, o in info["queries"]:
                     got = [os.path.relpath(str(x), root) for x in iter_intermediate_paths(Path(spell(root, sc.cwd, p, rng)), Path(os.path.join(root, *o)))]
@@ -1429,6 +1445,7 @@ def _run(ctx, coq_ok, base_tmp):
                     info["via_linter"] = vl
                 # histories
                 eligible = (root_cfg is not None and root_cfg.get("dialect") is not None and not sc.decoys
+                            and all(r[0] == "ok" for r in (info["via_linter"] or [("no",)]))
                             and all(d0[0] == "ok" and d0[2].get("dialect") is not None for d0 in info["direct"])
                             and all(ar == t for (p, t), ar in zip(sc.sql, info["as_read"])))
                 if eligible and n_hist < max_hist:
@@ -1557,7 +1574,7 @@ def history(ctx, sc, root, kw, rng):
             solo[os.path.abspath(x)] = ("err", exc_kind(e))
     out = {"runs": runs, "solo": solo, "abs_of": abs_of, "cli": None}
     # the same sequence through the command line
-    if all(k in CLI_FLAGS for k in sc.overrides) and rng.random() < 0.5:
+    if all(k in CLI_FLAGS and dec(v) is not None for k, v in sc.overrides.items()) and rng.random() < 0.5:
         from click.testing import CliRunner
         from sqlfluff.cli.commands import lint
         args = list(paths) + ["--format", "json"]
